@@ -1174,3 +1174,331 @@ def keyword_chunk(args):
                     viol.append((sig, "%s query %r (keyword segment) raised %s at %s" % (mode, text, e, out.get("site")),
                                  {"doc": doc, "path": text, "items": items, "prop": "C15", "impl": out}))
     return stats, viol
+
+
+# --------------------------------------------------------------------------- collectors against the model (C01, wave w3)
+# Additive block: the evaluator model `W3.requiredM` (lean/Ypv/Model/Collector.lean) parses the path TEXT itself
+# (parser model) and threads the document through the evaluation; driver op `C01.coll`.
+
+W3_VALS = [{"k": "int", "v": "1"}, {"k": "int", "v": "2"}, {"k": "str", "v": "a"}, {"k": "str", "v": "1"}, {"k": "bool", "v": True},
+           {"k": "float", "m": "15", "e": -1}, {"k": "null"}, {"k": "str", "v": "ab"}, {"k": "int", "v": "0"}]
+W3_KEYS = ["a", "b", "c", "x", "y", 1, 0]
+
+
+def w3_dealias(j, seen=None):
+    """Drop every anchor name that already occurred (no shared objects: the model has none)."""
+    if seen is None:
+        seen = set()
+    j = dict(j)
+    a = j.get("a")
+    if a is not None:
+        if a in seen:
+            del j["a"]
+        else:
+            seen.add(a)
+    if j["k"] == "map":
+        j["e"] = [[k, w3_dealias(v, seen)] for k, v in j["e"]]
+    elif j["k"] == "seq":
+        j["i"] = [w3_dealias(v, seen) for v in j["i"]]
+    return j
+
+
+def w3_shared_doc(rng):
+    """Hashes (and lists of hashes / scalars) sharing keys and values, so that - and & have something to do."""
+    def small_map():
+        ks = rng.sample(["x", "y", "a", "b", 1], rng.randint(0, 3))
+        return {"k": "map", "e": [[k, leaf()] for k in ks]}
+
+    def leaf():
+        r = rng.random()
+        if r < 0.75:
+            return dict(rng.choice(W3_VALS[:5]))
+        if r < 0.85:
+            return {"k": "seq", "i": [dict(rng.choice(W3_VALS[:4])) for _ in range(rng.randint(0, 3))]}
+        return small_map()
+
+    def member():
+        r = rng.random()
+        if r < 0.45:
+            return small_map()
+        if r < 0.65:
+            return {"k": "seq", "i": [small_map() if rng.random() < 0.6 else leaf() for _ in range(rng.randint(0, 3))]}
+        if r < 0.75:
+            return {"k": "seq", "i": [dict(rng.choice(W3_VALS)) for _ in range(rng.randint(0, 4))]}
+        if r < 0.8:
+            return {"k": "set", "m": rng.sample(["a", "b", "x", 1], rng.randint(0, 3))}
+        return leaf()
+    def twin(j):
+        """A copy in which some scalars are replaced by look-alikes (1 / "1", true / "True": unequal, same str())."""
+        j = json.loads(json.dumps(j))
+        if j["k"] == "map":
+            j["e"] = [[k, twin(v)] for k, v in j["e"] if rng.random() < 0.9]
+        elif j["k"] == "seq":
+            j["i"] = [twin(v) for v in j["i"]]
+        elif rng.random() < 0.4:
+            if j["k"] == "int":
+                return {"k": "str", "v": j["v"]}
+            if j["k"] == "bool":
+                return {"k": "str", "v": "True" if j["v"] else "False"}
+            if j["k"] == "str" and j["v"] == "1":
+                return {"k": "int", "v": "1"}
+        return j
+    if rng.random() < 0.8:
+        ks = rng.sample(W3_KEYS, rng.randint(1, 4))
+        es = [[k, member()] for k in ks]
+        if len(es) >= 2 and rng.random() < 0.4:
+            es[1][1] = twin(es[0][1])
+        return {"k": "map", "e": es}
+    items = [member() for _ in range(rng.randint(1, 4))]
+    if len(items) >= 2 and rng.random() < 0.4:
+        items[1] = twin(items[0])
+    return {"k": "seq", "i": items}
+
+
+def w3_addr_paths(j, pre="", out=None, depth=0):
+    """Straight paths (dot notation, plain keys / [i]) to the nodes of a document."""
+    if out is None:
+        out = []
+    if depth > 3:
+        return out
+    if j["k"] == "map":
+        for k, v in j["e"]:
+            ks = str(k)
+            if not ks or any(c in ks for c in " ./\\[]()&*!{}'\"#=~^$%,:<>@|;?+-"):
+                continue
+            p = (pre + "." if pre else "") + ks
+            out.append(p)
+            w3_addr_paths(v, p, out, depth + 1)
+    elif j["k"] == "seq":
+        for i, v in enumerate(j["i"]):
+            p = pre + "[%d]" % i
+            out.append(p)
+            w3_addr_paths(v, p, out, depth + 1)
+    return out
+
+
+W3_GENERIC = ["*", "**", "a", "b", "x", "a.x", "a.*", "*.x", "[0]", "[1]", "[-1]", "[0:2]", "[1:1]", "a[0]", "[.=a]", "[.>0]", "[x=1]",
+              "[.!=1]", "1", "0", "[&x]", "a.b", "b.a", "c", "y", "*.*", "[a:b]", "[.^a]", ""]
+
+
+def w3_operand(rng, paths, depth=0, near=None):
+    r = rng.random()
+    if near and r < 0.2:
+        # a sibling of the first operand, or something below a sibling (twins live there)
+        cut = max(near.rfind("."), near.rfind("["))
+        par = near[:cut] if cut > 0 else ""
+        sib = [q for q in paths if q != near and not q.startswith(near) and q.startswith(par) and q.count(".") + q.count("[") <= near.count(".") + near.count("[") + 1]
+        if sib:
+            p = rng.choice(sib)
+            return p + ".*" if rng.random() < 0.3 else p
+    if near and r < 0.5:
+        rel = [q for q in paths if q != near and (q.startswith(near) or near.startswith(q))]
+        if rel:
+            p = rng.choice(rel)
+            return p + ".*" if rng.random() < 0.2 else p
+    if r < 0.72 and paths:
+        p = rng.choice(paths)
+        q = rng.random()
+        if q < 0.15:
+            return p + ".*"
+        if q < 0.2:
+            return p + "[0:2]"
+        return p
+    if r < 0.8 and depth < 2:
+        return w3_collector(rng, paths, depth + 1, tail=False)
+    return rng.choice(W3_GENERIC)
+
+
+def w3_collector(rng, paths, depth=0, tail=True):
+    n = rng.choice([1, 2, 2, 2, 3, 3, 4]) if depth == 0 else rng.choice([1, 2, 2])
+    first = w3_operand(rng, paths, depth)
+    near = first[:-2] if first.endswith(".*") else first
+    near = near if near in paths else None
+    text = "(%s)" % first
+    for _ in range(n - 1):
+        text += rng.choice(["+", "-", "-", "&"]) + "(%s)" % w3_operand(rng, paths, depth, near)
+    if tail:
+        text += rng.choice(["", "", "", "", "", "", "", "", "", "", "", "[0]", "[1]", "[-1]", "[0:2]", "[1:1]", ".a", ".x", "[0].x", "[0][0]", ".0",
+                            "[7]", "[.=a]", ".(x)", "(x)", ".(x)+(y)", "[0](x)-(y)"])
+        if depth == 0 and rng.random() < 0.12 and paths:
+            text = rng.choice(paths) + "." + text
+    return text
+
+
+def w3_leaves(nc, table, out):
+    from yamlpath.wrappers import NodeCoords
+    from ruamel.yaml.comments import CommentedSet
+    node = nc.node
+    if isinstance(node, NodeCoords):
+        return w3_leaves(node, table, out)
+    if type(node) is list:
+        for e in node:
+            if isinstance(e, NodeCoords):
+                w3_leaves(e, table, out)
+            else:
+                out.append({"raw": True})
+        return
+    leaf = {"n": codec.node_to_json(node)}
+    p = nc.parent
+    leaf["p"] = None if p is None else table.get(id(p), "not-in-document")
+    try:
+        leaf["r"] = None if nc.parentref is None else codec.key_to_json(nc.parentref)
+    except Exception:
+        leaf["r"] = "?"
+    if isinstance(node, (dict, list, CommentedSet, set)):
+        leaf["a"] = table.get(id(node), "not-in-document")
+    out.append(leaf)
+
+
+def w3_run(doc_json, text, mode):
+    from yamlpath import Processor
+    d = codec.json_to_ruamel(doc_json)
+    table = codec.build_addr_table(d)
+    p = Processor(core.quiet_logger(), d)
+    try:
+        def go():
+            if mode == "exists":
+                return {"exists": bool(p.exists(text))}
+            ncs = list(p.get_nodes(text, mustexist=True))
+            res = []
+            for nc in ncs:          # after the generator is exhausted: the nodes reflect every deletion
+                leaves = []
+                w3_leaves(nc, table, leaves)
+                res.append(leaves)
+            return {"res": res}
+        out = with_timer(go)
+    except Timeout:
+        out = {"err": "timeout", "site": "?"}
+    except RecursionError as e:
+        out = {"err": "crash:RecursionError", "site": core.crash_site(e)}
+    except Exception as e:  # noqa
+        out = {"err": core.exc_class(e), "site": core.crash_site(e)}
+    try:
+        out["doc"] = codec.node_to_json(d)
+    except Exception:
+        out["doc"] = None
+    return out
+
+
+def w3_model_leaves(res):
+    out = []
+    for leaves in res:
+        ls = []
+        for lf in leaves:
+            x = {"n": lf["n"], "p": lf["p"], "r": None if lf["r"] is None else lf["r"][1]}
+            if lf["n"]["k"] in ("map", "seq", "set"):
+                x["a"] = lf["a"]
+            ls.append(x)
+        out.append(ls)
+    return out
+
+
+def w3_ops(text):
+    return "".join(sorted(set(c for i, c in enumerate(text) if c in "+-&" and i > 0 and text[i - 1] == ")" and text[i + 1:i + 2] == "(")))
+
+
+def w3_chunk(args):
+    """cases: (doc, text, layer).  Real get_nodes(mustexist=True) / exists() against `C01.coll`."""
+    cases, _opts = args
+    core.use_repo()
+    stats = {"n": 0, "oom": 0, "nonempty": 0, "ypath": 0, "crash_agree": 0, "mutated": 0, "virtual_results": 0, "hashsub": 0,
+             "ops": {}}
+    viol, disag, nontrivial = [], [], set()
+    per_sig = {}
+
+    def report(lst, sig, what, case):
+        n = per_sig.get(sig, 0)
+        per_sig[sig] = n + 1
+        if n < 3:
+            lst.append((sig, what, case))
+    reqs = [{"op": "C01.coll", "doc": doc, "path": text} for doc, text, _l in cases]
+    answers = core.Driver().ask(reqs) if reqs else []
+    for (doc, text, layer), mo in zip(cases, answers):
+        stats["n"] += 1
+        case = {"doc": doc, "path": text, "items": [text], "layer": layer}
+        ops = w3_ops(text)
+        stats["ops"][ops] = stats["ops"].get(ops, 0) + 1
+        m_err = err_class(mo["err"])
+        m_ex = mo["exists"]
+        if m_err == "outOfModel" or err_class(m_ex.get("err")) == "outOfModel":
+            stats["oom"] += 1
+            continue
+        esc = "escape:" if layer == "escape" else ""
+        impl = w3_run(doc, text, "req")
+        ex = w3_run(doc, text, "exists")
+        if mo["hashSub"]:
+            stats["hashsub"] += 1
+        # ---- get_nodes(mustexist=True)
+        i_err = impl.get("err")
+        if i_err is not None and i_err != "ypath":
+            if m_err == i_err:
+                stats["crash_agree"] += 1        # the model has the same crash outcome (class of C09-F1, see Props/C15)
+            elif m_err is not None and m_err.startswith("crash"):
+                report(viol, "c01:%scollector-crash-differs:%s" % (esc, ops), "get_nodes(%r): implementation %s at %s, model %s" % (
+                    text, i_err, impl.get("site"), m_err), dict(case, impl=impl, model=mo, prop="C01"))
+            else:
+                report(viol, "crash:%s@%s" % (i_err.split(":", 1)[-1], impl.get("site")),
+                       "req query %r (collector) raised %s at %s; the model has no crash outcome there" % (text, i_err, impl.get("site")),
+                       dict(case, impl=impl, model=mo, prop="C15"))
+        else:
+            m_res = w3_model_leaves(mo["res"])
+            if m_err is None and not m_res and doc["k"] != "null":
+                m_err = "ypath"
+            if (i_err or None) != m_err or (i_err is None and impl["res"] != m_res):
+                report(viol, "c01:%scollector-differs:%s" % (esc, ops), "get_nodes(%r, mustexist=True): implementation %s, model %s" % (
+                    text, i_err or impl["res"], m_err or m_res), dict(case, impl=impl, model=mo, prop="C01"))
+            elif i_err is None:
+                if impl["res"]:
+                    stats["nonempty"] += 1
+                    nontrivial.add(hash((json.dumps(doc, sort_keys=True), text)))
+                if any(len(ls) != 1 for ls in impl["res"]):
+                    stats["virtual_results"] += 1
+            else:
+                stats["ypath"] += 1
+        if impl.get("doc") != mo["doc"]:
+            report(viol, "c01:%scollector-document-differs:%s" % (esc, ops), "document after get_nodes(%r): implementation %s, model %s" % (
+                text, json.dumps(impl.get("doc"))[:300], json.dumps(mo["doc"])[:300]), dict(case, impl=impl, model=mo, prop="C01"))
+        elif impl.get("doc") != doc:
+            stats["mutated"] += 1
+        # ---- exists()
+        e_err = ex.get("err")
+        if e_err is not None and e_err != "ypath":
+            if err_class(m_ex.get("err")) != e_err:
+                if (m_ex.get("err") or "").startswith("crash"):
+                    report(viol, "c01:%scollector-crash-differs:%s" % (esc, ops), "exists(%r): implementation %s, model %s" % (
+                        text, e_err, m_ex), dict(case, impl=ex, model=mo, prop="C01"))
+                else:
+                    report(viol, "crash:%s@%s" % (e_err.split(":", 1)[-1], ex.get("site")),
+                           "exists query %r (collector) raised %s at %s; the model has no crash outcome there" % (
+                               text, e_err, ex.get("site")), dict(case, impl=ex, model=mo, prop="C15"))
+        else:
+            want = ("ypath" if err_class(m_ex.get("err")) == "ypath" else None, m_ex.get("ok"))
+            got = (e_err, ex.get("exists"))
+            if "err" in m_ex and err_class(m_ex["err"]) != "ypath" or want != got:
+                report(viol, "c01:%scollector-exists-differs:%s" % (esc, ops), "exists(%r) = %s, model %s" % (text, got, m_ex),
+                       dict(case, impl=ex, model=mo, prop="C01"))
+        if ex.get("doc") != mo["exdoc"]:
+            report(viol, "c01:%scollector-document-differs:%s" % (esc, ops), "document after exists(%r): implementation %s, model %s" % (
+                text, json.dumps(ex.get("doc"))[:300], json.dumps(mo["exdoc"])[:300]), dict(case, impl=ex, model=mo, prop="C01"))
+    stats["nontrivial"] = len(nontrivial)
+    return stats, viol, disag
+
+
+W3_ESC_DOC = {"k": "map", "e": [["a.b", {"k": "int", "v": "1"}], ["c.d", {"k": "int", "v": "2"}],
+                                 ["c", {"k": "map", "e": [["d", {"k": "int", "v": "3"}]]}],
+                                 ["a", {"k": "map", "e": [["b", {"k": "int", "v": "4"}]]}],
+                                 ["x y", {"k": "int", "v": "5"}]]}
+W3_ESC_PATHS = [r"(a\.b)+(c\.d)", r"(c\.d)+(a\.b)", r"(a\.b)", r"(a.b)+(c\.d)", r"(*)-(c\.d)", r"(*)&(a\.b)", r"(a\.b)+(c.d)",
+                r"(a.b)+(x\ y)", r"((a\.b)+(c\.d))", r"(a\.b)-(c\.d)+(a\.b)"]
+
+
+def w3_cases(rng, n):
+    cases = [(W3_ESC_DOC, t, "escape") for t in W3_ESC_PATHS]
+    for i in range(n):
+        if rng.random() < 0.6:
+            d = w3_shared_doc(rng)
+        else:
+            d = w3_dealias(random_doc(rng, rng.choice([6, 10, 15]), keys=["a", "b", "ab", "c", 1, -1, 0, "x", "y"]))
+        paths = w3_addr_paths(d)
+        cases.append((d, w3_collector(rng, paths), "random"))
+    return cases
